@@ -252,11 +252,32 @@ func rangeAlgebraRun(c *mc.Ctx, ws *pipe.Workspace, property string, inDomain fu
 	}
 }
 
+// macroRun: the macro family (lexref.MacroSpec): bodies from the pool of size
+// <= 2 (thorough: 3), second expression from the pool of size 1 (thorough: 2).
+func macroRun(c *mc.Ctx, ws *pipe.Workspace, property string, inDomain func(c *lexref.Compiled) (bool, string), L int) {
+	leaves := lexref.StdLeaves()
+	cards := []int{lexref.COpt, lexref.CStar, lexref.CPlus}
+	a, b := lexref.NewPool(leaves, cards, 2), lexref.NewPool(leaves, cards, 1)
+	if !c.Quick() {
+		a, b = lexref.NewPool(leaves, cards, 3), lexref.NewPool(leaves, cards, 2)
+	}
+	n := int64(len(a.All)) * int64(len(b.All)) * lexref.MacroShapes
+	for i := int64(0); i < n; i++ {
+		if !c.Mine(i) {
+			continue
+		}
+		for _, v := range c02One(ws, "macros", i, lexref.MacroSpec(a, b, i), L, &c.Stats, property, inDomain) {
+			c.Stats.Violate(v)
+		}
+	}
+}
+
 func c02Worker(c *mc.Ctx) {
 	prm := c02Families(c.Quick())
 	ws := pipe.NewWorkspace("c02")
 	defer ws.Close()
 	rangeAlgebraRun(c, ws, "C02", specInDomainC02)
+	macroRun(c, ws, "C02", specInDomainC02, prm.L)
 	for _, fam := range prm.sets {
 		n := fam.rs.Size()
 		if fam.limit > 0 && fam.limit < n {
@@ -302,7 +323,7 @@ func init() {
 		ID:    "C02",
 		Level: "model_checking",
 		Rule: "rule sets: every specification of 1-3 rules (token or @frag @discard) whose expressions are drawn from the pool of all regexes up to a size bound over the leaves {'a','b','ab',[a],[ab],[a-c],~[a],[a-c]-[b],.} with ? * + | concatenation and grouping (counter-enumerated); kept if greedy, no empty class, no rule matching the empty string; " +
-			"plus the range-algebra family: every specification of 3 rules that are each one range over the points a..f and of 4 rules over a..e (thorough: 4 over a..f, 5 over a..d), i.e. every way ranges nest, overlap, coincide with the remainder of a split and are split again, in every order; " +
+			"plus the range-algebra family: every specification of 3 rules that are each one range over the points a..f and of 4 rules over a..e (thorough: 4 over a..f, 5 over a..d), i.e. every way ranges nest, overlap, coincide with the remainder of a split and are split again, in every order; and the macro family: @macro bodies from the pool, used in two rules, twice in one rule, nested in a second macro, under ? * +, in a discarding fragment; " +
 			"each: breadth-first search of the product (real _LexerStateMachine with the spec's emitted tables) x (tuple of Brzozowski derivatives) over both end points and a middle point of every atom of the spec's classes plus EOF - a finite graph, so event streams agree for inputs of every length up to the first error; " +
 			"then every string of up to L symbols (ASCII, 2/3/4-byte code points, invalid UTF-8 bytes) through the real simplelexer driver, comparing token type, text span and position; states/transitions = product nodes/edges; non-trivial = spec with > 3 product states",
 		Assume: []string{"reference: internal/lexref (derivatives over atoms, longest viable run, earliest declared rule)", "the product abstracts byte offsets; the driver-level strings cover them up to the length bound"},
